@@ -42,6 +42,10 @@ pub struct RunCfg {
     pub files: BTreeMap<String, Vec<u8>>,
     pub max_steps: u64,
     pub flush_subscriptions: bool,
+    /// the builtin registry of a host that runs programs but has no I/O implementations (quiver-web's
+    /// worker: `core_modules()` only, I/O builtins registered for their signature)
+    #[serde(default)]
+    pub io_signatures_only: bool,
 }
 
 impl RunCfg {
@@ -57,6 +61,7 @@ impl RunCfg {
             files: BTreeMap::new(),
             max_steps: 200_000,
             flush_subscriptions: false,
+            io_signatures_only: false,
         }
     }
 }
@@ -97,17 +102,19 @@ pub struct World {
     pub counts: BTreeMap<&'static str, u64>,
 }
 
-pub fn make_builtins() -> BuiltinRegistry<E> {
+pub fn make_builtins(io_signatures_only: bool) -> BuiltinRegistry<E> {
     let mut b = BuiltinRegistry::<E>::with_modules(&quiver_core::builtins::core_modules());
-    quiver_io::attach_file_builtins(&mut b);
-    quiver_io::attach_network_builtins(&mut b);
+    if !io_signatures_only {
+        quiver_io::attach_file_builtins(&mut b);
+        quiver_io::attach_network_builtins(&mut b);
+    }
     b
 }
 
 impl World {
     pub fn new(cfg: RunCfg, keep_log: bool) -> World {
         let sh = Shared::new(cfg.nworkers, cfg.json, keep_log);
-        let builtins = make_builtins();
+        let builtins = make_builtins(cfg.io_signatures_only);
         let mut handles: Vec<Box<dyn WorkerHandle<E>>> = Vec::new();
         let mut workers = Vec::new();
         for w in 0..cfg.nworkers {
